@@ -143,6 +143,8 @@ import (
 //@ func FromMultihashWithIO
 //@   requires validAnyIO(io)
 //@   ensures [fetched-entry-is-safe-to-use] err == nil ==> validEntry(result0)
+//@   ensures [fetched-entry-carries-the-requested-hash] err == nil ==> result0.Hash == hash && fresh(result0)
+//@   ensures [failed-fetch-returns-no-entry] err != nil ==> result0 == nil
 
 //@ func (*Entry).Equals
 //@   requires e != nil && b != nil && typeis(b, "*Entry") && ref(b) != nil
@@ -423,3 +425,159 @@ func verifLemmaSignedBytesBindFields(a, b *Entry) ([]byte, []byte, bool) {
 func verifLemmaTamperEvident(a, b *Entry, identity identityprovider.Interface, io iface.IO) (error, error) {
 	return a.Verify(identity, io), b.Verify(identity, io)
 }
+
+// ---- C11 (facet mon): the fetcher's shared state under its monitor invariant ----
+// The work queue is a binary heap from container/heap: its contract is assumed as a set of hashes (ghost qHas / qLen).
+//@ func newProcessQueue
+//@   trusted
+//@   ensures result != nil && typeis(result, "*priorityQueue") && ref(result) != nil && fresh(ref(result)) && qLen[ref(result)] == 0 && (forall h cid :: !qHas[ref(result)][h])
+//@   modifies qHas, qLen
+//@   ensures forall o ref, h cid :: o != ref(result) ==> qHas[o][h] == old(qHas[o][h]) && qLen[o] == old(qLen[o])
+//@ func (*priorityQueue).Add
+//@   trusted
+//@   requires pq != nil
+//@   requires [a-hash-is-queued-at-most-once] !qHas[pq][hash]
+//@   modifies qHas[pq], qLen[pq]
+//@   ensures qHas[pq][hash] && qLen[pq] == old(qLen[pq]) + 1 && (forall h cid :: h != hash ==> qHas[pq][h] == old(qHas[pq][h]))
+//@ func (*priorityQueue).Next
+//@   trusted
+//@   requires pq != nil && qLen[pq] > 0
+//@   modifies qHas[pq], qLen[pq]
+//@   ensures old(qHas[pq][result]) && !qHas[pq][result] && qLen[pq] == old(qLen[pq]) - 1 && (forall h cid :: h != result ==> qHas[pq][h] == old(qHas[pq][h]))
+//@ func (*priorityQueue).Len
+//@   trusted
+//@   pure
+//@   ensures result == qLen[pq] && result >= 0 && (result == 0 ==> forall h cid :: !qHas[pq][h])
+
+// The monitor invariant of the state guarded by f.muProcess (tasksCache, the queue, the results slice):
+//  - a queued hash is defined, not excluded by the caller's predicate, and registered as "added";
+//  - every result is registered as "done" and no two results have the same hash;
+//  - (unbounded fetch) every link of a result is undefined, excluded, or registered (queued, being fetched, or done).
+//@ define taskAdded() = 0
+//@ define taskInProgress() = 1
+//@ define taskDone() = 2
+//@ define wanted(f *Fetcher, h cid) = h != cidUndef && !applybool(f.shouldExclude, h)
+//@ define queueOK(f *Fetcher, q processQueue) = forall h cid :: qHas[ref(q)][h] ==> wanted(f, h) && has(f.tasksCache, h)
+//@ define cacheOK(f *Fetcher) = forall h cid :: has(f.tasksCache, h) ==> wanted(f, h) && 0 <= f.tasksCache[h] && f.tasksCache[h] <= 2
+//@ define resultsOK(f *Fetcher, rs []iface.IPFSLogEntry) = (forall i int :: 0 <= i && i < len(rs) ==> validEntry(rs[i]) && has(f.tasksCache, rs[i].Hash) && f.tasksCache[rs[i].Hash] == taskDone()) && (forall i int, j int :: 0 <= i && i < j && j < len(rs) ==> rs[i].Hash != rs[j].Hash)
+//@ define linksKnown(f *Fetcher, rs []iface.IPFSLogEntry) = f.length < 0 ==> forall i int :: 0 <= i && i < len(rs) ==> (forall j int :: 0 <= j && j < len(rs[i].Next) ==> !wanted(f, rs[i].Next[j]) || has(f.tasksCache, rs[i].Next[j])) && (forall j int :: 0 <= j && j < len(rs[i].Refs) ==> !wanted(f, rs[i].Refs[j]) || has(f.tasksCache, rs[i].Refs[j]))
+//@ define fetcherOK(f *Fetcher) = f != nil && f.tasksCache != nil && f.shouldExclude != nil && f.muProcess != nil && f.condProcess != nil && f.sem != nil && f.io != nil && validAnyIO(f.io)
+//@ define monitorInv(f *Fetcher, q processQueue, rs []iface.IPFSLogEntry) = queueOK(f, q) && cacheOK(f) && resultsOK(f, rs) && linksKnown(f, rs)
+
+//@ func (*Fetcher).exclude
+//@   requires fetcherOK(f)
+//@   pure
+//@   ensures [exclude-decides-by-definedness-cache-and-predicate] result == (hash == cidUndef || has(f.tasksCache, hash) || applybool(f.shouldExclude, hash))
+
+//@ func (*Fetcher).addHashToQueue
+//@   requires fetcherOK(f) && queue != nil && typeis(queue, "*priorityQueue") && ref(queue) != nil
+//@   requires queueOK(f, queue) && cacheOK(f)
+//@   modifies mapof(f.tasksCache), qHas[ref(queue)], qLen[ref(queue)]
+//@   ensures [queue-and-cache-stay-consistent] queueOK(f, queue) && cacheOK(f)
+//@   ensures [an-offered-hash-is-registered-unless-unwanted] !wanted(f, hash) || has(f.tasksCache, hash)
+//@   ensures [registered-hashes-keep-their-state] forall h cid :: old(has(f.tasksCache, h)) ==> has(f.tasksCache, h) && f.tasksCache[h] == old(f.tasksCache[h])
+//@   ensures [only-the-offered-hash-is-registered] forall h cid :: has(f.tasksCache, h) && !old(has(f.tasksCache, h)) ==> h == hash && f.tasksCache[h] == taskAdded() && qHas[ref(queue)][h]
+//@   ensures [queue-only-grows-by-the-offered-hash] forall h cid :: qHas[ref(queue)][h] ==> old(qHas[ref(queue)][h]) || h == hash
+//@   ensures [queued-hashes-stay-queued] forall h cid :: old(qHas[ref(queue)][h]) ==> qHas[ref(queue)][h]
+//@   ensures qLen[ref(queue)] >= old(qLen[ref(queue)])
+
+//@ func (*Fetcher).addHashesToQueue
+//@   requires fetcherOK(f) && queue != nil && typeis(queue, "*priorityQueue") && ref(queue) != nil
+//@   requires queueOK(f, queue) && cacheOK(f)
+//@   modifies mapof(f.tasksCache), qHas[ref(queue)], qLen[ref(queue)]
+//@   ensures [queue-and-cache-stay-consistent] queueOK(f, queue) && cacheOK(f)
+//@   ensures [every-offered-hash-is-registered-unless-unwanted] forall i int :: 0 <= i && i < len(hashes) ==> !wanted(f, hashes[i]) || has(f.tasksCache, hashes[i])
+//@   ensures [registered-hashes-keep-their-state] forall h cid :: old(has(f.tasksCache, h)) ==> has(f.tasksCache, h) && f.tasksCache[h] == old(f.tasksCache[h])
+//@   ensures [new-registrations-are-added-and-queued] forall h cid :: has(f.tasksCache, h) && !old(has(f.tasksCache, h)) ==> f.tasksCache[h] == taskAdded() && qHas[ref(queue)][h]
+//@   ensures [queued-hashes-stay-queued] forall h cid :: old(qHas[ref(queue)][h]) ==> qHas[ref(queue)][h]
+//@   ensures qLen[ref(queue)] >= old(qLen[ref(queue)])
+//@   loop 0
+//@     invariant queueOK(f, queue) && cacheOK(f) && qLen[ref(queue)] >= old(qLen[ref(queue)])
+//@     invariant forall h cid :: old(qHas[ref(queue)][h]) ==> qHas[ref(queue)][h]
+//@     invariant forall i int :: 0 <= i && i < $k ==> !wanted(f, hashes[i]) || has(f.tasksCache, hashes[i])
+//@     invariant forall h cid :: old(has(f.tasksCache, h)) ==> has(f.tasksCache, h) && f.tasksCache[h] == old(f.tasksCache[h])
+//@     invariant forall h cid :: has(f.tasksCache, h) && !old(has(f.tasksCache, h)) ==> f.tasksCache[h] == taskAdded() && qHas[ref(queue)][h]
+//@     loopmodifies mapof(f.tasksCache), qHas[ref(queue)], qLen[ref(queue)]
+
+//@ func (*Fetcher).addNextEntry
+//@   requires fetcherOK(f) && queue != nil && typeis(queue, "*priorityQueue") && ref(queue) != nil && validEntry(entry)
+//@   requires queueOK(f, queue) && cacheOK(f)
+//@   modifies mapof(f.tasksCache), qHas[ref(queue)], qLen[ref(queue)]
+//@   ensures [queue-and-cache-stay-consistent] queueOK(f, queue) && cacheOK(f)
+//@   ensures [unbounded-fetch-registers-every-link-of-the-entry] f.length < 0 ==> (forall j int :: 0 <= j && j < len(entry.Next) ==> !wanted(f, entry.Next[j]) || has(f.tasksCache, entry.Next[j])) && (forall j int :: 0 <= j && j < len(entry.Refs) ==> !wanted(f, entry.Refs[j]) || has(f.tasksCache, entry.Refs[j]))
+//@   ensures [registered-hashes-keep-their-state] forall h cid :: old(has(f.tasksCache, h)) ==> has(f.tasksCache, h) && f.tasksCache[h] == old(f.tasksCache[h])
+//@   ensures [new-registrations-are-added-and-queued] forall h cid :: has(f.tasksCache, h) && !old(has(f.tasksCache, h)) ==> f.tasksCache[h] == taskAdded() && qHas[ref(queue)][h]
+//@   ensures [queued-hashes-stay-queued] forall h cid :: old(qHas[ref(queue)][h]) ==> qHas[ref(queue)][h]
+//@   ensures qLen[ref(queue)] >= old(qLen[ref(queue)])
+//@   loop 0
+//@     invariant queueOK(f, queue) && cacheOK(f) && qLen[ref(queue)] >= old(qLen[ref(queue)])
+//@     invariant forall h cid :: old(qHas[ref(queue)][h]) ==> qHas[ref(queue)][h]
+//@     invariant forall h cid :: old(has(f.tasksCache, h)) ==> has(f.tasksCache, h) && f.tasksCache[h] == old(f.tasksCache[h])
+//@     invariant forall h cid :: has(f.tasksCache, h) && !old(has(f.tasksCache, h)) ==> f.tasksCache[h] == taskAdded() && qHas[ref(queue)][h]
+//@     loopmodifies mapof(f.tasksCache), qHas[ref(queue)], qLen[ref(queue)]
+//@   loop 1
+//@     invariant queueOK(f, queue) && cacheOK(f) && qLen[ref(queue)] >= old(qLen[ref(queue)])
+//@     invariant forall h cid :: old(qHas[ref(queue)][h]) ==> qHas[ref(queue)][h]
+//@     invariant forall h cid :: old(has(f.tasksCache, h)) ==> has(f.tasksCache, h) && f.tasksCache[h] == old(f.tasksCache[h])
+//@     invariant forall h cid :: has(f.tasksCache, h) && !old(has(f.tasksCache, h)) ==> f.tasksCache[h] == taskAdded() && qHas[ref(queue)][h]
+//@     loopmodifies mapof(f.tasksCache), qHas[ref(queue)], qLen[ref(queue)]
+
+//@ func (*Fetcher).updateClock
+//@   requires f != nil && validEntry(entry) && (lastEntry == nil || validEntry(lastEntry))
+//@   modifies f.maxClock, f.minClock
+
+// The worker goroutine: fetches outside the lock, then one critical section.
+//@ func (*Fetcher).processQueue$1
+// At function entry the closure's free variables are the cells of the captured variables (deref(f) is the fetcher);
+// inside the body the names denote the current contents, as in the source.
+//@   requires f != nil && queue != nil && results != nil && taskInProgress != nil && ctx != nil
+//@   requires fetcherOK(deref(f)) && deref(queue) != nil && typeis(deref(queue), "*priorityQueue") && ref(deref(queue)) != nil
+//@   requires [the-requested-hash-is-wanted] wanted(deref(f), hash)
+//@   requires deref(f).progressChan == nil || !closed(deref(f).progressChan)
+//@   modifies chanof(deref(f).progressChan), mapof(deref(f).tasksCache), qHas[ref(deref(queue))], qLen[ref(deref(queue))], cell(results), cell(taskInProgress), deref(f).maxClock, deref(f).minClock
+//@ @mon monitorenter "f.muProcess.Lock()" modifies mapof(f.tasksCache), qHas[ref(deref(queue))], qLen[ref(deref(queue))], cell(results), cell(taskInProgress), f.maxClock, f.minClock assume monitorInv(f, deref(queue), deref(results))
+//@ @mon assert "f.tasksCache[entryHash] = taskKindDone" [the-completed-hash-is-the-requested-one] entryHash == hash && wanted(f, entryHash)
+//@ @mon assert "f.tasksCache[entryHash] = taskKindDone" [cache-stays-consistent-after-completion] cacheOK(f)
+//@ @mon assert "f.tasksCache[entryHash] = taskKindDone" [queue-stays-consistent-after-completion] queueOK(f, deref(queue))
+//@ @mon assert "f.muProcess.Unlock()" [worker-restores-the-monitor-invariant] monitorInv(f, deref(queue), deref(results))
+
+// The dispatcher: holds the lock except inside Cond.Wait.
+//@ func (*Fetcher).processQueue
+//@   requires fetcherOK(f) && cacheOK(f) && (f.progressChan == nil || !closed(f.progressChan))
+//@   flag go monitor
+//@   modifies mapof(f.tasksCache), f.maxClock, f.minClock, qHas, qLen
+//@ @mon assert "f.condProcess.Wait()" [dispatcher-restores-the-monitor-invariant-before-waiting] monitorInv(f, queue, results)
+//@ @mon monitorenter "f.condProcess.Wait()" modifies mapof(f.tasksCache), qHas[ref(queue)], qLen[ref(queue)], results, taskInProgress, f.maxClock, f.minClock assume monitorInv(f, queue, results)
+//@ @mon assert "f.muProcess.Unlock()" [dispatcher-restores-the-monitor-invariant] monitorInv(f, queue, results)
+//@ @mon ensures [no-entry-is-returned-twice] forall i int, j int :: 0 <= i && i < j && j < len(result) ==> result[i].Hash != result[j].Hash
+//@ @mon ensures [every-result-was-registered-and-completed] forall i int :: 0 <= i && i < len(result) ==> validEntry(result[i]) && has(f.tasksCache, result[i].Hash) && f.tasksCache[result[i].Hash] == taskDone() && wanted(f, result[i].Hash)
+//@ @mon ensures [every-link-of-a-result-was-considered] linksKnown(f, result)
+//@ @mon ensures cacheOK(f)
+//@   loop 0
+//@   invariant fetcherOK(f) && queue != nil && typeis(queue, "*priorityQueue") && ref(queue) != nil
+//@ @mon invariant [dispatcher-holds-the-monitor-invariant] monitorInv(f, queue, results)
+//@     loopmodifies mapof(f.tasksCache), qHas[ref(queue)], qLen[ref(queue)], results, taskInProgress, f.maxClock, f.minClock
+//@   loop 1
+//@   invariant fetcherOK(f) && queue != nil && typeis(queue, "*priorityQueue") && ref(queue) != nil
+//@ @mon invariant [dispatcher-holds-the-monitor-invariant] monitorInv(f, queue, results)
+//@     loopmodifies mapof(f.tasksCache), qHas[ref(queue)], qLen[ref(queue)], results, taskInProgress, f.maxClock, f.minClock
+//@   loop 2
+//@   invariant fetcherOK(f) && queue != nil && typeis(queue, "*priorityQueue") && ref(queue) != nil
+//@ @mon invariant [dispatcher-holds-the-monitor-invariant] monitorInv(f, queue, results)
+//@     loopmodifies mapof(f.tasksCache), qHas[ref(queue)], qLen[ref(queue)], results, taskInProgress, f.maxClock, f.minClock
+
+//@ func NewFetcher
+//@   requires options != nil && (options.IO == nil || validAnyIO(options.IO))
+//@   modifies fields(options)
+//@   ensures [new-fetcher-is-usable] result != nil ==> fresh(result) && result.tasksCache != nil && result.muProcess != nil && result.condProcess != nil && result.sem != nil
+//@   ensures [new-fetcher-has-an-exclusion-predicate] result != nil ==> result.shouldExclude != nil
+//@   ensures [new-fetcher-has-a-codec] result != nil ==> result.io != nil && validAnyIO(result.io)
+//@   ensures [new-fetcher-starts-with-an-empty-cache] result != nil ==> fresh(result.tasksCache) && (forall h cid :: !has(result.tasksCache, h)) && result.progressChan == options.ProgressChan
+//@   ensures [new-fetcher-takes-the-requested-limit] result != nil ==> result.length == ite(old(options.Length) == nil, 0 - 1, deref(old(options.Length)))
+
+//@ func (*Fetcher).Fetch
+//@   requires fetcherOK(f) && cacheOK(f) && (f.progressChan == nil || !closed(f.progressChan))
+//@   modifies mapof(f.tasksCache), f.maxClock, f.minClock, qHas, qLen
+//@ @mon ensures [no-entry-is-returned-twice] forall i int, j int :: 0 <= i && i < j && j < len(result) ==> result[i].Hash != result[j].Hash
+//@ @mon ensures [every-result-was-registered-and-completed] forall i int :: 0 <= i && i < len(result) ==> validEntry(result[i]) && has(f.tasksCache, result[i].Hash) && f.tasksCache[result[i].Hash] == taskDone() && wanted(f, result[i].Hash)
+//@ @mon ensures [every-link-of-a-result-was-considered] linksKnown(f, result)
